@@ -18,6 +18,7 @@ import (
 	"encoding/binary"
 	"fmt"
 	"regexp"
+	"unicode/utf8"
 )
 
 // MQTT 3.1.3.1: Client Identifier
@@ -563,6 +564,11 @@ func (m *ConnectMessage) decodeMessage(src []byte) (int, error) {
 			return total, err
 		}
 
+		// Ill-formed UTF-8 in a string field is a malformed packet [MQTT-1.5.3-1]
+		if !utf8.Valid(m.willTopic) {
+			return total, fmt.Errorf("connect/decodeMessage: Will Topic is not valid UTF-8")
+		}
+
 		m.willMessage, n, err = readLPBytes(src[total:])
 		total += n
 		if err != nil {
@@ -577,6 +583,10 @@ func (m *ConnectMessage) decodeMessage(src []byte) (int, error) {
 		total += n
 		if err != nil {
 			return total, err
+		}
+
+		if !utf8.Valid(m.username) {
+			return total, fmt.Errorf("connect/decodeMessage: User Name is not valid UTF-8")
 		}
 	}
 
